@@ -52,7 +52,7 @@ Supply == Cardinality(Users) * InitBal
 \* TxPool holds templates [tid, kind, from, signer, chain, to, amt, ops]; a transaction is a template plus a
 \* nonce (next / dup / gap relative to the sender's current nonce) and the id <<tid, nonce>>:
 \*   [tid, id, kind, from, signer, chain, nonce, to, amt, ops]
-\*   kind: transfer | stake | unstake | name | deploy | call | vault
+\*   kind: transfer | stake | unstake | vote | name | deploy | call | vault
 \*   signer: the key that signed (= from when honest); chain: "this" | "other"
 \*   ops (call): "ok" | "fail" (runtime failure after a storage write and a send) | "send" (contract sends amt to `to`)
 Authorised(t) == t.signer = t.from /\ t.chain = "this"
@@ -68,6 +68,7 @@ CanApply(t, fee) ==
   /\ bal[t.from] >= t.amt + fee + (IF t.kind = "name" THEN NamePrice ELSE 0)
   /\ CASE t.kind = "stake"   -> staked[t.from] = 0 /\ t.amt >= MinStake
        [] t.kind = "unstake" -> FALSE                      \* inside the staking lock period (heights are small)
+       [] t.kind = "vote"    -> staked[t.from] > 0            \* (re-votes inside the voting lock period are rejected by the code)
        [] t.kind = "name"    -> owner = None
        [] t.kind = "deploy"  -> ~deployed
        [] t.kind = "call"    -> deployed
@@ -95,6 +96,9 @@ ApplySuccess(t, fee) ==
             /\ bal' = [Move(bal, t.from, Sys, t.amt) EXCEPT ![t.from] = @ - fee]
             /\ staked' = [staked EXCEPT ![t.from] = @ + t.amt] /\ total' = total + t.amt
             /\ UNCHANGED <<owner, deployed, store>>
+       [] t.kind = "vote" ->                                 \* tallies only (Governance.tla); no coin moves
+            /\ bal' = [bal EXCEPT ![t.from] = @ - fee]
+            /\ UNCHANGED <<staked, total, owner, deployed, store>>
        [] t.kind = "name" ->
             /\ bal' = [Move(bal, t.from, Name, NamePrice) EXCEPT ![t.from] = @ - fee]
             /\ owner' = t.from
